@@ -112,6 +112,18 @@ func (c04) Generate(seed uint64, tier string, index int) any {
 	return out
 }
 
+// throughSymlink reports whether a proper parent component of name is a symlink.
+func throughSymlink(root, name string) bool {
+	dir := filepath.Dir(name)
+	for dir != "." && dir != "/" && dir != "" {
+		if fi, err := os.Lstat(filepath.Join(root, dir)); err == nil && fi.Mode()&os.ModeSymlink != 0 {
+			return true
+		}
+		dir = filepath.Dir(dir)
+	}
+	return false
+}
+
 // atomicityChecker evaluates the C04 invariant on the destination.
 type atomicityChecker struct {
 	root   string
@@ -130,6 +142,12 @@ func (a *atomicityChecker) check() error {
 		}
 		a.checks++
 		p := filepath.Join(a.root, name)
+		if throughSymlink(a.root, name) {
+			// a parent component is (still) a symlink in the way of a directory:
+			// what lstat would show is another object reached through it, not
+			// the listed path, which does not exist yet
+			continue
+		}
 		cur, err := fstree.LstatNode(p, false)
 		old, hadOld := a.before[name]
 		if err != nil {
